@@ -178,7 +178,25 @@ class Spy5(Spy):
     def _event(self, rec):
         if rec['ok'] and rec['call'].startswith('fcntl.'):
             return 'n'          # descriptor flags: no effect on the two names
+        if rec['ok'] and rec['call'] == 'open' and rec.get('on_fd'):
+            return 'n'          # open(fd, mode) is os.fdopen: wraps a descriptor, no effect on the file system
         return Spy._event(self, rec)
+
+    def _builtin_open(self, file, mode='r', *args, **kwargs):
+        """fsspy's wrapper + the descriptor of the new file object is known to the recorder (os.fsync / os.fchmod /
+        fcntl on `f.fileno()` of a file made by the builtin must be attributed to its path)"""
+        n0 = len(self.log)
+        try:
+            r = Spy._builtin_open(self, file, mode, *args, **kwargs)
+        finally:
+            if isinstance(file, int) and len(self.log) > n0:
+                self.log[n0]['on_fd'] = True
+        try:
+            f = object.__getattribute__(r, '_f')
+            self.fdpath.setdefault(f.fileno(), (object.__getattribute__(r, '_path'), object.__getattribute__(r, '_wr')))
+        except Exception:
+            pass
+        return r
 
     def _counted(self, name, real, args, kwargs, paths, size=None, still=None):
         act = self.plan.get(self.n)
